@@ -150,6 +150,10 @@ func (u *UDP) VerifyChecksum() (error, gopacket.ChecksumVerificationResult) {
 		return err, gopacket.ChecksumVerificationResult{}
 	}
 	correct := gopacket.FoldChecksum(verification - uint32(existing))
+	if correct == 0 {
+		// RFC 768: a computed checksum of zero is transmitted as all ones (zero means "no checksum").
+		correct = 0xffff
+	}
 	return nil, gopacket.ChecksumVerificationResult{
 		Valid:   existing == 0 || correct == existing,
 		Correct: uint32(correct),
